@@ -41,6 +41,15 @@ pub fn check_deltas(
             if nd.has_setmax && nd.max != copy.mv {
                 return e("C07.setmax", format!("{label} SetMaxVersion({}) for {} whose copy is at {}", nd.max, nd.id.short(), copy.mv));
             }
+            if nd.has_setmax {
+                let skipped: Vec<(&String, u64)> = copy.entries.iter().filter(|(_, e)| e.version > nd.from && e.version <= nd.max).map(|(k, e)| (k, e.version)).collect();
+                if !skipped.is_empty() {
+                    return e(
+                        "C07.setmax_skips_entries",
+                        format!("{label} delta for {} announces versions ({}, {}] with no key-values, but the copy holds {} entries in that range", nd.id.short(), nd.from, nd.max, skipped.len()),
+                    );
+                }
+            }
         } else {
             if nd.has_setmax {
                 return e("C07.setmax_after_kvs", format!("{label} emits SetMaxVersion after key-values for {}", nd.id.short()));
